@@ -783,14 +783,24 @@ Definition parent_extend_safe (pv : pvariant) : Prop :=
 Lemma parent_refuted : ~ parent_extend_safe PCurrent.
 Proof. intros H. apply (H tri4 par4 5 [13;14;15;16;17;18]). exact parent_current_append_faults. Qed.
 
-(* cg_poly_elements_read as it is: NGON_n stored as I4, partial write (connectivity cached), full read fails *)
+(* cg_poly_elements_read: NGON_n stored as I4, partial write (connectivity cached), full read.
+   Before /repo 98748ad (ROld) it failed; the code as it is (RCurrent) answers the section. *)
 Definition hist_polyread : list op :=
   [OSecGeneralWrite 22 I4 1 3 6; OPolyWrite I8 2 2 [1;2;3] [0;3]; OPolyRead false].
-Lemma polyread_current_fails : run PFixed RCurrent None hist_polyread = RErr.
+Lemma polyread_old_fails : run PFixed ROld None hist_polyread = RErr.
 Proof. vm_compute. reflexivity. Qed.
-Lemma polyread_fixed_ok :
-  exists st, run PFixed RFixed None hist_polyread = ROk (st, [[0;0;1;2;3;0;0]; [0;2;5;7]]).
+Lemma polyread_current_ok :
+  exists st, run PFixed RCurrent None hist_polyread = ROk (st, [[0;0;1;2;3;0;0]; [0;2;5;7]]).
 Proof. eexists. vm_compute. reflexivity. Qed.
+(* still failing in the code as it is: space reserved by cg_section_general_write (14 values for 2 elements),
+   a partial read caches the node, the full read then fails its count == ElementDataSize check *)
+Definition hist_polyread_slack : list op :=
+  [OSecGeneralWrite 22 I4 1 2 14; OPolyPartialRead 1 2 false; OPolyRead false].
+Lemma polyread_slack_current_fails : run PFixed RCurrent None hist_polyread_slack = RErr.
+Proof. vm_compute. reflexivity. Qed.
+Lemma polyread_slack_fixed_ok :
+  exists st tail, run PFixed RFixed None hist_polyread_slack = ROk (st, [[0;0;0;0] ++ tail; [0;2;4]]).
+Proof. eexists. eexists. vm_compute. reflexivity. Qed.
 
 (* ---- variable-size sections: rebased offsets ------------------------------------------------------------------ *)
 Lemma rebase_nth l i : 0 <= i < lenZ l -> nthZ (rebase l) i 0 = nthZ l i 0 - nthZ l 0 0.
